@@ -194,6 +194,9 @@ func (c *Ctx) contractFor(fn *ssa.Function) *Contract {
 }
 
 func (c *Ctx) inRepo(fn *ssa.Function) bool {
+	if fn.Pkg == nil && fn.Origin() != nil && fn.Origin() != fn {
+		return c.inRepo(fn.Origin())
+	}
 	p := fn.Pkg
 	if p == nil && fn.Parent() != nil {
 		return c.inRepo(fn.Parent())
